@@ -9,6 +9,9 @@ import PdsVerif.Props.C04
 import PdsVerif.Props.C08
 import PdsVerif.Props.C14
 import PdsVerif.Props.C15
+import PdsVerif.Props.C16
+import PdsVerif.Props.C17
+import PdsVerif.Model.StandardizeDrv
 import PdsVerif.Props.C18
 import PdsVerif.Props.C19
 import PdsVerif.Props.C20
